@@ -226,6 +226,7 @@ func c40(r *core.Run) {
 	r.Check("C40.F2", core.Key("C40.F2", proc, "select on both channels"), proc.Pos(), both,
 		"the processing loop serves subscriptions and unsubscriptions", "process no longer receives from both subInfoChan and unsubInfoChan")
 	c40more(r)
+	c40Order(r)
 }
 
 // sameCapturedCell: inside closure cl the value v is a load of a free variable bound (by
